@@ -18,6 +18,10 @@ CONSTANTS
   Deltas = {48,49,50,51}
   Slack1 = {0,1,2}
   FarProbe = {0,1,2}
+  ProbeDeltas = {12,18,47,72}
+  ProbeOffD = {42}
+  OffSoon = {0,1,2,3,4,5,6}
+  BigHops = {0,24}
 INVARIANTS TypeOK NeverShowOrForwardTooSoon ClaimableBelowDeadline OnChainInTimeOutbound OnChainInTimeInbound WinInboundRace BoundedLoss FailBackAfterBurial EmitScripts
 CONSTRAINT Horizon
 CHECK_DEADLOCK FALSE
